@@ -172,22 +172,7 @@ def run(ctx):
                           f"{q}: gap `{short(st, 80)}` is not LUMO - HOMO of the same spin's orbital energies")
     if n_gap < 4:
         raise AnalysisError(f"only {n_gap} gap expressions found")
-    # the orbital energies a gap is read from are the ascending eigenvalues of the solver, not a character-tracked permutation of them
-    from ..cfg import build_cfg
-    f = bs.func("Energy.forward")
-    g = build_cfg(f)
-    gaps = [n for n in g.nodes if n.kind == "stmt" and isinstance(n.stmt, ast.Assign) and isinstance(n.stmt.targets[0], ast.Name)
-            and n.stmt.targets[0].id.startswith("e_gap") and "gather" in norm(n.stmt.value)]
-    perm = [n for n in g.nodes if n.kind == "stmt" and isinstance(n.stmt, ast.Assign) and any(callee_attr(c) in ("_crossing_match_molecular_orbitals", "_crossing_match_molecular_orbitals_grouped")
-                                                                                               for c in calls_in(n.stmt))
-            and any(norm(e) == "e" for e in (n.stmt.targets[0].elts if isinstance(n.stmt.targets[0], ast.Tuple) else [n.stmt.targets[0]]))]
-    if not gaps or not perm:
-        raise AnalysisError("Energy.forward: gap / orbital-tracking statements not found")
-    for gp in gaps:
-        tainted = [pm for pm in perm if gp.id in g.reachable(pm.id)]
-        ctx.check(not tainted, "R3", bs, gp.stmt, "Energy.forward", gp.stmt, "gap is read from the solver's ascending orbital energies (before orbital-character tracking permutes them)",
-                  f"`{short(gp.stmt, 60)}` can run after `{short(tainted[0].stmt, 60) if tainted else ''}` permuted the orbital energies: after a level "
-                  f"crossing on a re-evaluated molecule the reported gap is not LUMO - HOMO")
+    check_gap_before_tracking(ctx, bs, "R3")
 
     # ------------------------------------------------------------------ R4
     ef = es.func("Electronic_Structure.forward")
@@ -246,6 +231,28 @@ def run(ctx):
     txts = sorted(norm(s.value).replace(" ", "") for s in signs if isinstance(s.value, ast.UnaryOp) or "coord" in norm(s.value) or norm(s.value) == "-dd")
     ctx.check(all(x.startswith("-") for x in txts) and len(txts) >= 4, "R4", dp, cm, "calc_dipole_matrix", "electron sign", "electronic dipole integrals carry the electron's negative charge",
               f"dipole matrix elements are {txts}")
+
+
+def check_gap_before_tracking(ctx, bs, rid):
+    """gap read before the orbital-character tracking permutes the energies (shared with C04: a restarted / re-used molecule must report
+    the same gap as a cold start)"""
+    # the orbital energies a gap is read from are the ascending eigenvalues of the solver, not a character-tracked permutation of them
+    from ..cfg import build_cfg
+    f = bs.func("Energy.forward")
+    g = build_cfg(f)
+    gaps = [n for n in g.nodes if n.kind == "stmt" and isinstance(n.stmt, ast.Assign) and isinstance(n.stmt.targets[0], ast.Name)
+            and n.stmt.targets[0].id.startswith("e_gap") and "gather" in norm(n.stmt.value)]
+    perm = [n for n in g.nodes if n.kind == "stmt" and isinstance(n.stmt, ast.Assign) and any(callee_attr(c) in ("_crossing_match_molecular_orbitals", "_crossing_match_molecular_orbitals_grouped")
+                                                                                               for c in calls_in(n.stmt))
+            and any(norm(e) == "e" for e in (n.stmt.targets[0].elts if isinstance(n.stmt.targets[0], ast.Tuple) else [n.stmt.targets[0]]))]
+    if not gaps or not perm:
+        raise AnalysisError("Energy.forward: gap / orbital-tracking statements not found")
+    for gp in gaps:
+        tainted = [pm for pm in perm if gp.id in g.reachable(pm.id)]
+        ctx.check(not tainted, rid, bs, gp.stmt, "Energy.forward", gp.stmt, "gap is read from the solver's ascending orbital energies (before orbital-character tracking permutes them)",
+                  f"`{short(gp.stmt, 60)}` can run after `{short(tainted[0].stmt, 60) if tainted else ''}` permuted the orbital energies: after a level "
+                  f"crossing on a re-evaluated molecule the reported gap is not LUMO - HOMO")
+
 
 
 def _r5_excited_rows(ctx, repo):
